@@ -33,7 +33,12 @@ Step ==
             ELSE /\ table' = St!DoOpen(table, e.i, e.c, e.now, e.len, e.raiseAt)
                  /\ bad' = IF ~e.ok THEN Flag("C10.OpenFailed") ELSE bad
        [] e.e = "Next" ->
-            LET r == St!DoNext(table, e.i, e.c) IN
+            LET r == St!DoNext(table, e.i, e.c, e.now, Cfg.lifetime, Cfg.linger)
+                \* exactly at the deadline the period "has passed" or has not, as one likes: an error is accepted there too
+                atDeadline == /\ St!Has(table, e.i)
+                              /\ \/ Cfg.lifetime > 0 /\ e.now - table[e.i].created = Cfg.lifetime
+                                 \/ Cfg.linger > 0 /\ table[e.i].linger > 0 /\ e.now - table[e.i].linger = Cfg.linger IN
+            IF atDeadline /\ e.out \in {"gone", "other"} THEN table' = St!Del(table, {e.i}) /\ bad' = bad ELSE
             /\ table' = r.tbl
             /\ bad' = IF e.out = "hang" THEN Flag("C10.Hang")
                       ELSE IF r.out = "gone" /\ e.out = "item" THEN Flag("C10.ItemFromForgottenStream")
@@ -46,7 +51,7 @@ Step ==
        [] e.e = "BrokenNext" -> table' = table /\ bad' = IF e.out # "commerror" THEN Flag("C10.BrokenFetchNotACommunicationError_" \o e.out) ELSE bad
        \* a fetch that the server took up and answered, but the answer got lost: the stream has moved on, the client must see a
        \* communication error (not an item, not the end of the stream)
-       [] e.e = "LostNext" -> /\ table' = St!DoNext(table, e.i, e.c).tbl
+       [] e.e = "LostNext" -> /\ table' = St!DoNext(table, e.i, e.c, e.now, Cfg.lifetime, Cfg.linger).tbl
                               /\ bad' = IF e.out # "commerror" THEN Flag("C10.LostReplyNotACommunicationError_" \o e.out) ELSE bad
        [] e.e = "Close" -> table' = St!DoClose(table, e.i) /\ bad' = bad
        [] e.e = "Disconnect" -> table' = St!DoDisconnect(table, e.c, e.now, Cfg.linger) /\ bad' = bad
